@@ -250,6 +250,26 @@ Section Stable.
     keeps P (clean_dirs_up p).
   Proof. intros Hb. unfold clean_dirs_up. apply keeps_cdu. now rewrite rev_involutive. Qed.
 
+  (** clean_dirs_down: every directory it removes lies at or below the start *)
+  Lemma keeps_cdd fuel : forall p,
+    (forall q, under p q = true -> forall t t', P t -> fs_rmdir t q = FOk t' -> ~ bad q) -> keeps P (cdd fuel p).
+  Proof.
+    assert (Tail : forall p, (forall q, under p q = true -> forall t t', P t -> fs_rmdir t q = FOk t' -> ~ bad q) ->
+                   keeps P (do t2 <- get_tree ;; if has_children t2 p then ret tt else step (SRmdir p))).
+    { intros p Hb. apply keeps_get_tree'. intros t2. destruct (has_children t2 p); [apply keeps_ret|].
+      apply keeps_step. split; [reflexivity|]. cbn. apply Hb, under_refl. }
+    induction fuel as [|f IH]; intros p Hb; cbn [cdd].
+    - apply keeps_andthen; [apply keeps_ret | now apply Tail].
+    - apply keeps_andthen; [|now apply Tail].
+      apply keeps_get_tree'. intros t0. apply keeps_forM. intros [q n] I. cbn [fst snd].
+      apply filter_In in I as [_ C]. cbn in C. apply is_child_below, below_under in C.
+      destruct n; [|apply keeps_ret]. apply IH. intros q' Hq'. apply Hb. eapply under_trans; eauto.
+  Qed.
+
+  Lemma keeps_clean_dirs_down p :
+    (forall q, under p q = true -> forall t t', P t -> fs_rmdir t q = FOk t' -> ~ bad q) -> keeps P (clean_dirs_down p).
+  Proof. intros Hb. unfold clean_dirs_down. apply keeps_get_tree'. intros t0. now apply keeps_cdd. Qed.
+
   (** remove_dir_all: everything it removes lies at or below the directory *)
   Lemma keeps_rm_all fuel : forall p,
     (forall q, under p q = true -> ~ bad q) -> keeps P (rm_all fuel p).
